@@ -242,6 +242,8 @@ pub fn run_c08(ctx: &mut Ctx) {
         ("500".into(), "K:Json".into(), format!("T:40:{}:{}", enc(&content), enc(&content))),
         ("200".into(), "K:EventStream".into(), format!("E:m{},c{}.{}", hex(b"one\ntwo"), hex(b"t"), hex(b"three"))),
         ("200".into(), "K:EventStream".into(), "E:".into()),
+        // the second event does not fit the encoder's read slice: the source fails after the head and the first chunk are out
+        ("200".into(), "K:EventStream".into(), format!("E:m{},m{}", hex(b"msg1"), hex(&vec![b'a'; 70_000]))),
     ];
     for (code, ct, body) in &families {
         // length of the full serialisation is not known here: sweep offsets generously; offsets beyond the end mean "no failure"
